@@ -6,7 +6,8 @@ self.start <-> self.len) the edited source is translated and gen/RingGen.v + Rin
 Ring/RingGenEquiv.v are compiled in a scratch directory against the worktree's compiled theories.
 Outcome per mutant: rejected by the translator / generated model ill-typed / equivalence lemma X breaks /
 SURVIVED (the edited source is still provably equal to the hand model: an equivalent mutant, or a gap).
-usage: tools/ring_mutants.py [lib.rs] [-j N]      (needs `tools/mk.py all` done)"""
+usage: tools/ring_mutants.py [lib.rs] [-j N]      (needs `tools/mk.py all` done)
+       tools/ring_mutants.py --tie file.rs         only: does THIS source pass translator + equivalence + 64-bit lemmas?"""
 import os, sys, re, shutil, subprocess, tempfile
 from concurrent.futures import ThreadPoolExecutor
 HERE = os.path.dirname(os.path.abspath(__file__))
@@ -19,7 +20,7 @@ jobs = 8
 if "-j" in args:
     jobs = int(args[args.index("-j") + 1])
     del args[args.index("-j"):args.index("-j") + 2]
-SRC_PATH = args[0] if args else T.DEFAULT_SRC
+SRC_PATH = args[0] if args and args[0] != "--tie" else T.DEFAULT_SRC
 SRC = open(SRC_PATH).read()
 COQ = os.path.join(VERIF, "coq")
 FLAGS = ["-w", "-notation-overridden,-deprecated-hint-without-locality,-deprecated-instance-without-locality,-ambiguous-paths"]
@@ -80,6 +81,45 @@ def run(site):
     finally:
         shutil.rmtree(d, ignore_errors=True)
 
+
+def tie(path):
+    """translator + gen/RingGen(Ck).v + Glue + Equiv + CkEquiv for one source file, in a scratch directory"""
+    src = open(path).read()
+    try:
+        text, _ = T.translate_text(src)
+        text_ck, _ = T.translate_text(src, checked=True)
+    except T.TranslateError as e:
+        return "rejected by the translator: " + str(e)
+    d = tempfile.mkdtemp(prefix="ringtie_")
+    try:
+        os.makedirs(os.path.join(d, "gen"))
+        os.makedirs(os.path.join(d, "t"))
+        open(os.path.join(d, "gen", "RingGen.v"), "w").write(text)
+        open(os.path.join(d, "gen", "RingGenCk.v"), "w").write(text_ck)
+        shutil.copy(os.path.join(COQ, "theories", "Ring", "RingGenGlue.v"), os.path.join(d, "t", "RingGenGlue.v"))
+        eq = open(os.path.join(COQ, "theories", "Ring", "RingGenEquiv.v")).read()
+        eq = eq.replace("Ring.RingPrim Ring.RingGenGlue.", "Ring.RingPrim.\nFrom DaspMut Require Import RingGenGlue.")
+        open(os.path.join(d, "t", "RingGenEquiv.v"), "w").write(eq)
+        ck = open(os.path.join(COQ, "theories", "Ring", "RingGenCkEquiv.v")).read()
+        assert "Ring.RingPrim Ring.RingGenGlue Ring.RingGenEquiv." in ck
+        ck = ck.replace("Ring.RingPrim Ring.RingGenGlue Ring.RingGenEquiv.", "Ring.RingPrim.\nFrom DaspMut Require Import RingGenGlue RingGenEquiv.")
+        open(os.path.join(d, "t", "RingGenCkEquiv.v"), "w").write(ck)
+        base = ["coqc", "-noglob", "-Q", os.path.join(COQ, "theories"), "Dasp", "-Q", os.path.join(d, "gen"), "DaspGen",
+                "-Q", os.path.join(d, "t"), "DaspMut"] + FLAGS
+        out = []
+        for rel in ("gen/RingGen.v", "gen/RingGenCk.v", "t/RingGenGlue.v", "t/RingGenEquiv.v", "t/RingGenCkEquiv.v"):
+            p = subprocess.run(["timeout", "600"] + base + [os.path.join(d, rel)], stdout=subprocess.PIPE, stderr=subprocess.STDOUT, text=True, cwd=d)
+            if p.returncode != 0:
+                m = re.search(r"\(in proof ([\w']+)\)", p.stdout)
+                return f"{rel} breaks" + (f" at lemma {m.group(1)}" if m else ": " + " ".join(p.stdout.split())[-300:])
+        return "PASSES (translator, equivalence, 64-bit lemmas)"
+    finally:
+        shutil.rmtree(d, ignore_errors=True)
+
+
+if args and args[0] == "--tie":
+    print(tie(args[1]))
+    sys.exit(0)
 
 ss = sites()
 with ThreadPoolExecutor(max_workers=jobs) as ex:
